@@ -8,6 +8,18 @@ package stream
 // state cannot change concurrently, OutboundFramesDiscarded() and the number of occupied ring slots (read under the
 // ring's own mutex through reflect/unsafe: the ring lives in gortsplib), and the contents of every
 // streamFormat.onDatas.  See coq/theories/Check/C17.v for the case format.
+//
+// Stream descriptions: single-format medias next to medias carrying two or three formats (distinct payload types);
+// a stream format is identified by (media index, format index).  A reader's OnData calls are steps of their own
+// (any subset of the pairs, any order, possibly spread between other steps - e.g. the second format of a media is
+// registered after units were written - always before AddReader); after each call the pairs present in the Reader's
+// own onDatas table are recorded.
+//
+// Forced schedule "raced switch" (always-available streams): the driver holds Stream.mutex (write lock), starts a
+// WriteUnit of the current publisher in another goroutine, waits until that goroutine is counted as a pending reader
+// of the RWMutex, performs the locked part of SubStream.Initialize for a new publisher by hand, and releases the
+// mutex.  In the code's order (RLock, then the currency comparison) the write is one Write label through a replaced
+// sub-stream placed after the NewSub label (Props/C17.v, C17_write_call_atomic).
 
 import (
 	"errors"
@@ -51,14 +63,31 @@ func vC17Ring(rb *ringbuffer.RingBuffer) (occ int, closed bool) {
 	return occ, v.FieldByName("closed").Bool()
 }
 
-type vC17Item struct{ f, u int }
+type vC17Key struct{ m, f int }
 
-func (it vC17Item) coq() string { return cqApp("It", cqZ(int64(it.f)), cqZ(int64(it.u))) }
+func (k vC17Key) coq() string { return cqApp("K", cqZ(int64(k.m)), cqZ(int64(k.f))) }
+
+type vC17Item struct {
+	k vC17Key
+	u int
+}
+
+func (it vC17Item) coq() string {
+	return cqApp("It", cqZ(int64(it.k.m)), cqZ(int64(it.k.f)), cqZ(int64(it.u)))
+}
+
+// vC17ReaderCount reads sync.RWMutex.readerCount (pending readers; minus 1<<30 while a writer holds the mutex).
+func vC17ReaderCount(mu *sync.RWMutex) int32 {
+	v := reflect.ValueOf(mu).Elem().FieldByName("readerCount").FieldByName("v")
+	return atomic.LoadInt32((*int32)(unsafe.Pointer(v.UnsafeAddr())))
+}
 
 type vC17Reader struct {
 	id      int
 	r       *Reader
-	subs    []int
+	subs    []vC17Key // OnData calls made so far
+	plan    []vC17Key // OnData calls still to be made before AddReader
+	regW    int       // number of writes when the last OnData call was made
 	entered chan vC17Item
 	release chan error
 	acked   chan struct{}
@@ -84,9 +113,13 @@ type vC17Case struct {
 	always   bool
 	q        int
 	desc     *description.Session
+	shape    int
+	keys     []vC17Key
 	subs     []*SubStream // sub-stream id = index + 1
 	cur      int
-	readers  []*vC17Reader
+	readers  []*vC17Reader // readers that were added
+	pend     []*vC17Reader // readers being prepared (OnData calls), not added yet
+	nextR    int
 	units    sync.Map // *unit.Unit -> tag
 	nextU    int
 	draining atomic.Bool
@@ -98,15 +131,31 @@ type vC17Case struct {
 	nW    int
 }
 
-func vC17Desc() *description.Session {
-	return &description.Session{Medias: []*description.Media{
-		{Type: description.MediaTypeAudio, Formats: []format.Format{&format.G711{
-			PayloadTyp: 0, MULaw: true, SampleRate: 8000, ChannelCount: 1,
-		}}},
-		{Type: description.MediaTypeAudio, Formats: []format.Format{&format.LPCM{
-			PayloadTyp: 96, BitDepth: 16, SampleRate: 48000, ChannelCount: 2,
-		}}},
-	}}
+// vC17Desc builds a fresh session description.  Shape 0: two single-format medias; the others carry several formats
+// in one media (distinct payload types), next to single-format medias.
+func vC17Desc(shape int) *description.Session {
+	g711 := func(pt uint8, mulaw bool) format.Format {
+		return &format.G711{PayloadTyp: pt, MULaw: mulaw, SampleRate: 8000, ChannelCount: 1}
+	}
+	lpcm := func(pt uint8) format.Format {
+		return &format.LPCM{PayloadTyp: pt, BitDepth: 16, SampleRate: 48000, ChannelCount: 2}
+	}
+	opus := func(pt uint8) format.Format { return &format.Opus{PayloadTyp: pt, ChannelCount: 2} }
+	au := func(fs ...format.Format) *description.Media {
+		return &description.Media{Type: description.MediaTypeAudio, Formats: fs}
+	}
+	switch shape {
+	case 1:
+		return &description.Session{Medias: []*description.Media{au(g711(0, true), lpcm(96)), au(lpcm(97))}}
+	case 2:
+		return &description.Session{Medias: []*description.Media{au(g711(0, true), lpcm(96), opus(97)), au(g711(8, false))}}
+	case 3:
+		return &description.Session{Medias: []*description.Media{au(lpcm(96), opus(97))}}
+	case 4:
+		return &description.Session{Medias: []*description.Media{au(g711(8, false)), au(opus(96), g711(0, true)), au(lpcm(97), opus(98))}}
+	default:
+		return &description.Session{Medias: []*description.Media{au(g711(0, true)), au(lpcm(96))}}
+	}
 }
 
 func (c *vC17Case) fail(format string, a ...any) {
@@ -123,10 +172,29 @@ func (rd *vC17Reader) stable() bool {
 	return rd.pending == 0
 }
 
+func (c *vC17Case) lookupReader(sr *Reader) int {
+	for _, rd := range c.readers {
+		if rd.r == sr {
+			return rd.id
+		}
+	}
+	for _, rd := range c.pend {
+		if rd.r == sr {
+			return rd.id
+		}
+	}
+	return -1
+}
+
+// emit records a step.  noSnap: no reader snapshot is taken (a concurrent write may be in progress).
 func (c *vC17Case) emit(label, dlabel string, pulled *vC17Item, exclude *vC17Reader) {
+	c.emit2(label, dlabel, pulled, exclude, false)
+}
+
+func (c *vC17Case) emit2(label, dlabel string, pulled *vC17Item, exclude *vC17Reader, noSnap bool) {
 	var snap []string
 	for _, rd := range c.readers {
-		if rd == exclude || !rd.stable() {
+		if noSnap || rd == exclude || !rd.stable() {
 			continue
 		}
 		occ, _ := vC17Ring(rd.r.buffer)
@@ -134,17 +202,12 @@ func (c *vC17Case) emit(label, dlabel string, pulled *vC17Item, exclude *vC17Rea
 	}
 	var subs []string
 	c.strm.mutex.RLock()
-	for _, m := range c.desc.Medias {
-		sf := c.strm.medias[m].formats[m.Formats[0]]
+	for _, k := range c.keys {
+		m := c.desc.Medias[k.m]
+		sf := c.strm.medias[m].formats[m.Formats[k.f]]
 		var ids []int
 		for sr := range sf.onDatas {
-			id := -1
-			for _, rd := range c.readers {
-				if rd.r == sr {
-					id = rd.id
-				}
-			}
-			ids = append(ids, id)
+			ids = append(ids, c.lookupReader(sr))
 		}
 		sort.Ints(ids)
 		subs = append(subs, cqListOf(ids, func(i int) string { return cqZ(int64(i)) }))
@@ -152,8 +215,8 @@ func (c *vC17Case) emit(label, dlabel string, pulled *vC17Item, exclude *vC17Rea
 	c.strm.mutex.RUnlock()
 	p := "NoPull"
 	if pulled != nil {
-		p = cqApp("Pulled", cqZ(int64(pulled.f)), cqZ(int64(pulled.u)))
-		dlabel += fmt.Sprintf(" -> f%d u%d", pulled.f, pulled.u)
+		p = cqApp("Pulled", cqZ(int64(pulled.k.m)), cqZ(int64(pulled.k.f)), cqZ(int64(pulled.u)))
+		dlabel += fmt.Sprintf(" -> m%df%d u%d", pulled.k.m, pulled.k.f, pulled.u)
 	}
 	c.steps = append(c.steps, cqApp("Sto", label, p, cqList(snap), cqList(subs)))
 	c.dsc = append(c.dsc, dlabel)
@@ -183,49 +246,65 @@ func (c *vC17Case) settle() {
 			}
 			rd.busy, rd.inflight = true, it
 			rd.pending--
-			c.emit(cqApp("ReaderPull", cqZ(int64(rd.id))), fmt.Sprintf("pull r%d", rd.id), &it, nil)
+			c.emit(cqApp("LPull", cqZ(int64(rd.id))), fmt.Sprintf("pull r%d", rd.id), &it, nil)
 			continue
 		}
 		if !rd.busy {
 			select {
 			case it := <-rd.entered: // not expected by the driver: report it as it is
 				rd.busy, rd.inflight = true, it
-				c.emit(cqApp("ReaderPull", cqZ(int64(rd.id))), fmt.Sprintf("UNEXPECTED pull r%d", rd.id), &it, nil)
+				c.emit(cqApp("LPull", cqZ(int64(rd.id))), fmt.Sprintf("UNEXPECTED pull r%d", rd.id), &it, nil)
 			default:
 			}
 		}
 	}
 }
 
-func (c *vC17Case) payload(fi int) unit.Payload {
+func (c *vC17Case) payload(k vC17Key) unit.Payload {
 	n := 1 + c.rnd.Intn(6)
-	if fi == 0 {
+	switch c.desc.Medias[k.m].Formats[k.f].(type) {
+	case *format.G711:
 		return unit.PayloadG711(make([]byte, n*8))
+	case *format.Opus:
+		return unit.PayloadOpus{make([]byte, n*5)}
+	default:
+		return unit.PayloadLPCM(make([]byte, n*4))
 	}
-	return unit.PayloadLPCM(make([]byte, n*4))
 }
 
-func (c *vC17Case) doWrite(ssID, fi int) {
+func (c *vC17Case) randKey() vC17Key { return vPick(c.rnd, c.keys) }
+
+func (rd *vC17Reader) subscribed(k vC17Key) bool {
+	for _, x := range rd.subs {
+		if x == k {
+			return true
+		}
+	}
+	return false
+}
+
+func (c *vC17Case) newUnit(k vC17Key) (*unit.Unit, int) {
 	tag := c.nextU
 	c.nextU++
-	u := &unit.Unit{PTS: int64(tag) * 160, Payload: c.payload(fi)}
+	u := &unit.Unit{PTS: int64(tag) * 160, Payload: c.payload(k)}
 	c.units.Store(u, tag)
+	return u, tag
+}
+
+func (c *vC17Case) doWrite(ssID int, k vC17Key) {
+	u, tag := c.newUnit(k)
 	before := map[*vC17Reader]uint64{}
 	for _, rd := range c.readers {
 		before[rd] = rd.r.OutboundFramesDiscarded()
 	}
 	ss := c.subs[ssID-1]
-	ss.WriteUnit(ss.InDesc.Medias[fi], ss.InDesc.Medias[fi].Formats[0], u)
+	ss.WriteUnit(ss.InDesc.Medias[k.m], ss.InDesc.Medias[k.m].Formats[k.f], u)
 	c.nW++
 	if ssID != c.cur {
 		c.feat["stale-write"] = true
 	}
 	for _, rd := range c.readers {
-		sub := false
-		for _, f := range rd.subs {
-			sub = sub || f == fi
-		}
-		if rd.attached && sub && ssID == c.cur {
+		if rd.attached && rd.subscribed(k) && ssID == c.cur {
 			if rd.r.OutboundFramesDiscarded() == before[rd] {
 				rd.pending++
 			} else {
@@ -233,8 +312,102 @@ func (c *vC17Case) doWrite(ssID, fi int) {
 			}
 		}
 	}
-	c.emit(cqApp("Write", cqZ(int64(ssID)), cqZ(int64(fi)), cqZ(int64(tag))),
-		fmt.Sprintf("write ss%d f%d u%d", ssID, fi, tag), nil, nil)
+	c.emit(cqApp("LWrite", cqZ(int64(ssID)), cqZ(int64(k.m)), cqZ(int64(k.f)), cqZ(int64(tag))),
+		fmt.Sprintf("write ss%d m%df%d u%d", ssID, k.m, k.f, tag), nil, nil)
+	c.settle()
+}
+
+// pollUnexpected: after a step that must not have queued anything, give idle readers a bounded time to show a
+// callback that started nevertheless (reported as it is).
+func (c *vC17Case) pollUnexpected(d time.Duration) {
+	dl := time.Now().Add(d)
+	for {
+		for _, rd := range c.readers {
+			if rd.busy || rd.dead || rd.closed || rd.pending > 0 {
+				continue
+			}
+			wait := time.Duration(0)
+			if occ, _ := vC17Ring(rd.r.buffer); occ > 0 {
+				wait = vC17Timeout // something was queued: its callback will start
+			}
+			select {
+			case it := <-rd.entered:
+				rd.busy, rd.inflight = true, it
+				c.emit(cqApp("LPull", cqZ(int64(rd.id))), fmt.Sprintf("UNEXPECTED pull r%d", rd.id), &it, nil)
+			case <-time.After(wait):
+			}
+		}
+		if time.Now().After(dl) {
+			return
+		}
+		time.Sleep(100 * time.Microsecond)
+	}
+}
+
+// doRacedSwitch: a new publisher replaces the current one while a WriteUnit of the current one is waiting for
+// Stream.mutex (always-available streams only).  What follows the Lock is the locked part of SubStream.Initialize.
+func (c *vC17Case) doRacedSwitch(k vC17Key) {
+	pubA := c.subs[c.cur-1]
+	ssA := c.cur
+	pubB := &SubStream{Stream: c.strm, InDesc: vC17Desc(c.shape), UseRTPPackets: false}
+	if err := mediasAreCompatible(c.strm.OrigDesc.Medias, pubB.InDesc.Medias); err != nil {
+		c.fail("raced switch: %v", err)
+		return
+	}
+	pubB.medias = make(map[*description.Media]*subStreamMedia)
+	for i, inMedia := range pubB.InDesc.Medias {
+		ssm := &subStreamMedia{
+			inMedia:       inMedia,
+			streamMedia:   c.strm.medias[c.strm.OrigDesc.Medias[i]],
+			useRTPPackets: pubB.UseRTPPackets,
+		}
+		if err := ssm.initialize(); err != nil {
+			c.fail("raced switch: %v", err)
+			return
+		}
+		pubB.medias[inMedia] = ssm
+	}
+	u, tag := c.newUnit(k)
+
+	c.strm.mutex.Lock()
+	base := vC17ReaderCount(&c.strm.mutex)
+	done := make(chan struct{})
+	go func() {
+		defer close(done)
+		pubA.WriteUnit(pubA.InDesc.Medias[k.m], pubA.InDesc.Medias[k.m].Formats[k.f], u)
+	}()
+	dl := time.Now().Add(vC17Timeout)
+	for vC17ReaderCount(&c.strm.mutex) == base { // the writer is not yet waiting for the mutex
+		if time.Now().After(dl) {
+			c.strm.mutex.Unlock()
+			<-done
+			c.fail("raced switch: WriteUnit never reached Stream.mutex")
+			return
+		}
+		time.Sleep(20 * time.Microsecond)
+	}
+	c.strm.subStream = pubB
+	for _, ssm := range pubB.medias {
+		for _, ssf := range ssm.formats {
+			ssf.initialize2(c.strm.firstTimeReceived, c.strm.lastPTS, c.strm.lastSystemTime)
+		}
+	}
+	c.strm.mutex.Unlock()
+
+	select {
+	case <-done:
+	case <-time.After(vC17Timeout):
+		c.fail("raced switch: WriteUnit of the replaced publisher did not return")
+		return
+	}
+	c.subs = append(c.subs, pubB)
+	c.cur = len(c.subs)
+	c.nW++
+	c.feat["raced-switch"] = true
+	c.emit2(cqApp("LNewSub", cqZ(int64(c.cur))), fmt.Sprintf("new-sub ss%d (while a write of ss%d waits for the mutex)", c.cur, ssA), nil, nil, true)
+	c.emit(cqApp("LWrite", cqZ(int64(ssA)), cqZ(int64(k.m)), cqZ(int64(k.f)), cqZ(int64(tag))),
+		fmt.Sprintf("write ss%d m%df%d u%d (got the mutex after the switch)", ssA, k.m, k.f, tag), nil, nil)
+	c.pollUnexpected(3 * time.Millisecond)
 	c.settle()
 }
 
@@ -256,7 +429,7 @@ func (c *vC17Case) pollEarlyJoin() {
 			select {
 			case <-rd.removed:
 				rd.joined = true
-				c.emit(cqApp("RemoveJoin", cqZ(int64(rd.id))), fmt.Sprintf("join r%d (callback still running!)", rd.id), nil, nil)
+				c.emit(cqApp("LRemJoin", cqZ(int64(rd.id))), fmt.Sprintf("join r%d (callback still running!)", rd.id), nil, nil)
 			default:
 			}
 		}
@@ -276,67 +449,113 @@ func (c *vC17Case) doDone(rd *vC17Reader, ok bool) {
 	if !ok {
 		rd.dead = true
 	}
-	c.emit(cqApp("ReaderDone", cqZ(int64(rd.id)), cqBool(ok)), fmt.Sprintf("done r%d ok=%v", rd.id, ok), nil, nil)
+	c.emit(cqApp("LDone", cqZ(int64(rd.id)), cqBool(ok)), fmt.Sprintf("done r%d ok=%v", rd.id, ok), nil, nil)
 	if rd.closed && !rd.joined {
 		if !c.waitRemoved(rd) {
 			return
 		}
 		if ok {
-			c.emit(cqApp("ReaderPull", cqZ(int64(rd.id))), fmt.Sprintf("pull r%d -> closed, goroutine exits", rd.id), nil, nil)
+			c.emit(cqApp("LPull", cqZ(int64(rd.id))), fmt.Sprintf("pull r%d -> closed, goroutine exits", rd.id), nil, nil)
 		}
-		c.emit(cqApp("RemoveJoin", cqZ(int64(rd.id))), fmt.Sprintf("join r%d", rd.id), nil, nil)
+		c.emit(cqApp("LRemJoin", cqZ(int64(rd.id))), fmt.Sprintf("join r%d", rd.id), nil, nil)
 		return
 	}
 	c.settle()
 }
 
-func (c *vC17Case) newReader(subs []int) *vC17Reader {
+// newReader: a Reader object with the OnData calls it is going to make; it becomes known to the stream in doAdd.
+func (c *vC17Case) newReader(plan []vC17Key) *vC17Reader {
+	c.nextR++
 	rd := &vC17Reader{
-		id: len(c.readers) + 1, subs: subs,
+		id: c.nextR, plan: plan,
 		entered: make(chan vC17Item, 1), release: make(chan error), acked: make(chan struct{}),
 		quit: make(chan struct{}), removed: make(chan struct{}),
 	}
 	rd.r = &Reader{Parent: vC17Log{}}
-	for _, fi := range subs {
-		fi := fi
-		m := c.desc.Medias[fi]
-		rd.r.OnData(m, m.Formats[0], func(u *unit.Unit) error {
-			if c.draining.Load() {
-				return nil
-			}
-			tag := -1
-			if v, ok := c.units.Load(u); ok {
-				tag = v.(int)
-			}
-			it := vC17Item{fi, tag}
-			select {
-			case rd.entered <- it:
-			case <-rd.quit:
-				return nil
-			}
-			var err error
-			select {
-			case err = <-rd.release:
-			case <-rd.quit:
-				return nil
-			}
-			rd.mu.Lock()
-			rd.delivered = append(rd.delivered, it)
-			rd.mu.Unlock()
-			rd.acked <- struct{}{}
-			return err
-		})
-	}
+	c.pend = append(c.pend, rd)
 	return rd
 }
 
-func (c *vC17Case) doAdd(subs []int) {
-	rd := c.newReader(subs)
+// doReg: the next OnData call of a reader that was not added yet.
+func (c *vC17Case) doReg(rd *vC17Reader) {
+	k := rd.plan[0]
+	rd.plan = rd.plan[1:]
+	m := c.desc.Medias[k.m]
+	if len(rd.subs) > 0 && c.nW > rd.regW {
+		c.feat["late-ondata"] = true // units were written since the reader's previous OnData call
+	}
+	rd.regW = c.nW
+	for _, x := range rd.subs {
+		if x.m == k.m {
+			c.feat["multi-format"] = true
+		}
+	}
+	rd.r.OnData(m, m.Formats[k.f], func(u *unit.Unit) error {
+		if c.draining.Load() {
+			return nil
+		}
+		tag := -1
+		if v, ok := c.units.Load(u); ok {
+			tag = v.(int)
+		}
+		it := vC17Item{k, tag}
+		select {
+		case rd.entered <- it:
+		case <-rd.quit:
+			return nil
+		}
+		var err error
+		select {
+		case err = <-rd.release:
+		case <-rd.quit:
+			return nil
+		}
+		rd.mu.Lock()
+		rd.delivered = append(rd.delivered, it)
+		rd.mu.Unlock()
+		rd.acked <- struct{}{}
+		return err
+	})
+	rd.subs = append(rd.subs, k)
+	// the pairs now present in the Reader's own table
+	var got []vC17Key
+	for mp, fs := range rd.r.onDatas {
+		for fp := range fs {
+			g := vC17Key{-1, -1}
+			for mi, mm := range c.desc.Medias {
+				if mm == mp {
+					g.m = mi
+					for fi, ff := range mm.Formats {
+						if ff == fp {
+							g.f = fi
+						}
+					}
+				}
+			}
+			got = append(got, g)
+		}
+	}
+	sort.Slice(got, func(i, j int) bool { return got[i].m < got[j].m || (got[i].m == got[j].m && got[i].f < got[j].f) })
+	c.steps = append(c.steps, cqApp("Reg", cqZ(int64(rd.id)), cqZ(int64(k.m)), cqZ(int64(k.f)),
+		cqListOf(got, func(k vC17Key) string { return k.coq() })))
+	c.dsc = append(c.dsc, fmt.Sprintf("ondata r%d m%df%d", rd.id, k.m, k.f))
+}
+
+// doAdd: the remaining OnData calls of the reader, then Stream.AddReader.
+func (c *vC17Case) doAdd(rd *vC17Reader) {
+	for len(rd.plan) > 0 {
+		c.doReg(rd)
+	}
+	for i, x := range c.pend {
+		if x == rd {
+			c.pend = append(c.pend[:i:i], c.pend[i+1:]...)
+			break
+		}
+	}
 	c.strm.AddReader(rd.r)
 	rd.attached = true
 	c.readers = append(c.readers, rd)
-	c.emit(cqApp("AddReader", cqZ(int64(rd.id)), cqListOf(subs, func(i int) string { return cqZ(int64(i)) })),
-		fmt.Sprintf("add r%d subs=%v", rd.id, subs), nil, nil)
+	c.emit(cqApp("LAdd", cqZ(int64(rd.id))), fmt.Sprintf("add r%d subs=%v", rd.id, rd.subs), nil, nil)
 }
 
 func (c *vC17Case) doRemove(rd *vC17Reader) {
@@ -365,14 +584,14 @@ func (c *vC17Case) doRemove(rd *vC17Reader) {
 	}
 	rd.closed = true
 	rd.pending = 0
-	c.emit(cqApp("RemoveBegin", cqZ(int64(rd.id))), fmt.Sprintf("remove-begin r%d", rd.id), nil, rd)
-	c.emit(cqApp("RemoveClose", cqZ(int64(rd.id))), fmt.Sprintf("remove-close r%d (dropped %d queued)", rd.id, occ), nil, nil)
+	c.emit(cqApp("LRemBegin", cqZ(int64(rd.id))), fmt.Sprintf("remove-begin r%d", rd.id), nil, rd)
+	c.emit(cqApp("LRemClose", cqZ(int64(rd.id))), fmt.Sprintf("remove-close r%d (dropped %d queued)", rd.id, occ), nil, nil)
 	if rd.busy {
 		// RemoveReader must now be blocked until the callback returns; if it returned already, say so
 		select {
 		case <-rd.removed:
 			rd.joined = true
-			c.emit(cqApp("RemoveJoin", cqZ(int64(rd.id))), fmt.Sprintf("join r%d (callback still running!)", rd.id), nil, nil)
+			c.emit(cqApp("LRemJoin", cqZ(int64(rd.id))), fmt.Sprintf("join r%d (callback still running!)", rd.id), nil, nil)
 		case <-time.After(300 * time.Microsecond):
 		}
 		return
@@ -381,15 +600,15 @@ func (c *vC17Case) doRemove(rd *vC17Reader) {
 		return
 	}
 	if !rd.dead {
-		c.emit(cqApp("ReaderPull", cqZ(int64(rd.id))), fmt.Sprintf("pull r%d -> closed, goroutine exits", rd.id), nil, nil)
+		c.emit(cqApp("LPull", cqZ(int64(rd.id))), fmt.Sprintf("pull r%d -> closed, goroutine exits", rd.id), nil, nil)
 	}
-	c.emit(cqApp("RemoveJoin", cqZ(int64(rd.id))), fmt.Sprintf("join r%d", rd.id), nil, nil)
+	c.emit(cqApp("LRemJoin", cqZ(int64(rd.id))), fmt.Sprintf("join r%d", rd.id), nil, nil)
 }
 
 func (c *vC17Case) doNewSub() {
 	ss := &SubStream{Stream: c.strm, UseRTPPackets: false}
 	if c.always {
-		ss.InDesc = vC17Desc()
+		ss.InDesc = vC17Desc(c.shape)
 	}
 	if err := ss.Initialize(); err != nil {
 		c.fail("SubStream.Initialize: %v", err)
@@ -397,29 +616,63 @@ func (c *vC17Case) doNewSub() {
 	}
 	c.subs = append(c.subs, ss)
 	c.cur = len(c.subs)
-	c.emit(cqApp("NewSub", cqZ(int64(c.cur))), fmt.Sprintf("new-sub ss%d", c.cur), nil, nil)
+	c.emit(cqApp("LNewSub", cqZ(int64(c.cur))), fmt.Sprintf("new-sub ss%d", c.cur), nil, nil)
 }
 
-func vC17Subsets(r *vRand) []int {
-	switch r.Intn(8) {
-	case 0, 1, 2:
-		return []int{0}
-	case 3, 4:
-		return []int{1}
-	case 5, 6:
-		return []int{0, 1}
-	default:
-		if r.Chance(1, 3) {
-			return []int{}
+// vC17Plan: the OnData calls of a new reader: per media a subset of its formats (often several formats of one media),
+// in any order, medias interleaved.
+func (c *vC17Case) plan() []vC17Key {
+	r := c.rnd
+	var ks []vC17Key
+	switch r.Intn(10) {
+	case 0: // every pair of the stream
+		ks = append(ks, c.keys...)
+	case 1: // one pair
+		ks = []vC17Key{c.randKey()}
+	case 2:
+		if r.Chance(1, 2) {
+			return nil // a reader without subscriptions
 		}
-		return []int{1, 0}
+		ks = []vC17Key{c.randKey()}
+	default:
+		for mi, m := range c.desc.Medias {
+			n := len(m.Formats)
+			if n > 1 && r.Chance(3, 5) { // at least two formats of this media
+				skip := -1
+				if n > 2 && r.Chance(1, 2) {
+					skip = r.Intn(n)
+				}
+				for fi := 0; fi < n; fi++ {
+					if fi != skip {
+						ks = append(ks, vC17Key{mi, fi})
+					}
+				}
+				continue
+			}
+			for fi := 0; fi < n; fi++ {
+				if r.Chance(1, 2) {
+					ks = append(ks, vC17Key{mi, fi})
+				}
+			}
+		}
+		if len(ks) == 0 {
+			ks = []vC17Key{c.randKey()}
+		}
 	}
+	for i := len(ks) - 1; i > 0; i-- { // any order
+		j := r.Intn(i + 1)
+		ks[i], ks[j] = ks[j], ks[i]
+	}
+	return ks
 }
 
 func vC17RunCase(seed uint64, idx int) (coq string, desc map[string]any, class string, nontrivial bool, stuck string) {
 	rnd := vNewRand(seed*1000003 + uint64(idx)*7919 + 17)
 	c := &vC17Case{rnd: rnd, feat: map[string]bool{}}
-	c.always = rnd.Chance(1, 2)
+	c.always = rnd.Chance(2, 5)
+	if !c.always {
+		c.shape = []int{0, 1, 1, 2, 2, 3, 4}[rnd.Intn(7)]
+	}
 	c.q = []int{1, 1, 2, 2, 2, 4, 4, 8}[rnd.Intn(8)]
 	maxReaders := 1 + rnd.Intn(4)
 
@@ -433,22 +686,28 @@ func vC17RunCase(seed uint64, idx int) (coq string, desc map[string]any, class s
 			WriteQueueSize: c.q, RTPMaxPayloadSize: 1450, ReplaceNTP: true, Parent: vC17Log{},
 		}
 	} else {
-		c.strm = &Stream{OrigDesc: vC17Desc(), WriteQueueSize: c.q, RTPMaxPayloadSize: 1450, Parent: vC17Log{}}
+		c.strm = &Stream{OrigDesc: vC17Desc(c.shape), WriteQueueSize: c.q, RTPMaxPayloadSize: 1450, Parent: vC17Log{}}
 	}
 	if err := c.strm.Initialize(); err != nil {
 		return "", nil, "", false, "Stream.Initialize: " + err.Error()
 	}
 	c.desc = c.strm.OrigDesc
+	for mi, m := range c.desc.Medias {
+		for fi := range m.Formats {
+			c.keys = append(c.keys, vC17Key{mi, fi})
+		}
+	}
 	if c.always {
 		// the offline sub-stream is the current one; keep it as a (soon stale) sub-stream handle
 		c.subs = append(c.subs, c.strm.offlineSubStream.subStream)
 		c.cur = 1
-		c.emit(cqApp("NewSub", "1"), "new-sub ss1 (offline)", nil, nil)
+		c.emit(cqApp("LNewSub", "1"), "new-sub ss1 (offline)", nil, nil)
 	}
 	c.doNewSub() // the publisher comes online (closes the offline sub-stream first)
 
 	nops := 8 + rnd.Intn(40)
 	fullBias := rnd.Chance(2, 3) // mostly writes, few Done: queues fill up
+	lazy := rnd.Chance(1, 3)     // OnData calls spread between other steps
 	for k := 0; k < nops && c.stuck == ""; k++ {
 		var busy, attached []*vC17Reader
 		for _, rd := range c.readers {
@@ -461,12 +720,27 @@ func vC17RunCase(seed uint64, idx int) (coq string, desc map[string]any, class s
 		}
 		c.pollEarlyJoin()
 		x := rnd.Intn(100)
-		canAdd := len(c.readers) < maxReaders+3 && len(attached) < maxReaders
+		canAdd := len(c.readers)+len(c.pend) < maxReaders+3 && len(attached)+len(c.pend) < maxReaders
+		add := func() {
+			rd := c.newReader(c.plan())
+			if !lazy || len(rd.plan) == 0 {
+				c.doAdd(rd)
+				return
+			}
+			c.doReg(rd) // the first call now, the others (and AddReader) later
+		}
 		switch {
-		case len(attached) == 0 && canAdd && x < 80:
-			c.doAdd(vC17Subsets(rnd))
+		case len(c.pend) > 0 && x < 30:
+			rd := vPick(rnd, c.pend)
+			if len(rd.plan) > 0 && rnd.Chance(2, 3) {
+				c.doReg(rd)
+			} else {
+				c.doAdd(rd)
+			}
+		case len(attached)+len(c.pend) == 0 && canAdd && x < 80:
+			add()
 		case x < 10 && canAdd:
-			c.doAdd(vC17Subsets(rnd))
+			add()
 		case x >= 10 && x < 17 && len(attached) > 0:
 			// prefer removing a reader that is busy (removal while units are queued / in flight)
 			var ab []*vC17Reader
@@ -481,19 +755,23 @@ func vC17RunCase(seed uint64, idx int) (coq string, desc map[string]any, class s
 			case rnd.Chance(1, 2):
 				c.doRemove(vPick(rnd, attached))
 			default:
-				c.doWrite(c.cur, rnd.Intn(2))
+				c.doWrite(c.cur, c.randKey())
 			}
 		case x >= 17 && x < 21 && c.always:
-			c.doNewSub()
+			if rnd.Chance(1, 2) && c.cur > 1 {
+				c.doRacedSwitch(c.randKey())
+			} else {
+				c.doNewSub()
+			}
 			if len(attached) > 0 {
 				c.feat["resub"] = true
 			}
 		case x >= 21 && x < 27 && len(c.subs) > 1:
-			c.doWrite(1+rnd.Intn(len(c.subs)-1), rnd.Intn(2)) // a replaced (stale) sub-stream
+			c.doWrite(1+rnd.Intn(len(c.subs)-1), c.randKey()) // a replaced (stale) sub-stream
 		case x >= 27 && x < 27+map[bool]int{true: 12, false: 35}[fullBias] && len(busy) > 0:
 			c.doDone(vPick(rnd, busy), !rnd.Chance(1, 12))
 		default:
-			c.doWrite(c.cur, rnd.Intn(2))
+			c.doWrite(c.cur, c.randKey())
 		}
 	}
 
@@ -508,10 +786,10 @@ func vC17RunCase(seed uint64, idx int) (coq string, desc map[string]any, class s
 		fin = append(fin, cqApp("Fin", cqZ(int64(rd.id)), cqListOf(del, func(it vC17Item) string { return it.coq() }), cqBool(rd.joined)))
 		var ds []string
 		for _, it := range del {
-			ds = append(ds, fmt.Sprintf("f%d:u%d", it.f, it.u))
+			ds = append(ds, fmt.Sprintf("m%df%d:u%d", it.k.m, it.k.f, it.u))
 		}
 		occ, _ := vC17Ring(rd.r.buffer)
-		finD[fmt.Sprintf("r%d", rd.id)] = map[string]any{"subs": rd.subs, "delivered": strings.Join(ds, " "),
+		finD[fmt.Sprintf("r%d", rd.id)] = map[string]any{"subs": fmt.Sprint(rd.subs), "delivered": strings.Join(ds, " "),
 			"discarded": rd.r.OutboundFramesDiscarded(), "queued": occ, "inflight": rd.busy, "joined": rd.joined}
 	}
 
@@ -542,8 +820,12 @@ func vC17RunCase(seed uint64, idx int) (coq string, desc map[string]any, class s
 	if class == "" {
 		class = "plain"
 	}
-	coq = cqApp("Hist", "[0; 1]", cqZ(int64(c.q)), cqList(c.steps), cqList(fin))
-	desc = map[string]any{"queueSize": c.q, "alwaysAvailable": c.always, "readers": len(c.readers), "steps": strings.Join(c.dsc, "; "), "final": finD}
+	coq = cqApp("Hist", cqListOf(c.keys, func(k vC17Key) string { return k.coq() }), cqZ(int64(c.q)), cqList(c.steps), cqList(fin))
+	var shp []int
+	for _, m := range c.desc.Medias {
+		shp = append(shp, len(m.Formats))
+	}
+	desc = map[string]any{"queueSize": c.q, "alwaysAvailable": c.always, "formatsPerMedia": fmt.Sprint(shp), "readers": len(c.readers), "steps": strings.Join(c.dsc, "; "), "final": finD}
 	return coq, desc, class, class != "plain", c.stuck
 }
 
